@@ -382,7 +382,14 @@ def c09(ctx):
               {"fen": "4k3/8/8/8/1p1p1p2/8/P1P1P1P1/4K3 w - -", "depth": 4, "hm": 95},
               {"fen": "4k3/p1p1p1p1/8/1P1P1P2/8/8/8/4K3 b - -", "depth": 4, "hm": 96},
               {"fen": "4k3/8/8/3pP3/3Pp3/8/2P2p2/4K3 w - -".replace("2P2p2", "2P2P2"), "depth": 4, "hm": 96},
-              {"fen": "6k1/2p2p2/8/1P2P1P1/8/8/8/6K1 b - -", "depth": 4, "hm": 95}]
+              {"fen": "6k1/2p2p2/8/1P2P1P1/8/8/8/6K1 b - -", "depth": 4, "hm": 95},
+              # rooks next to their home corners, the draw by move count inside the horizon: every route to a position
+              # must arrive with the same clock
+              {"fen": "k7/8/8/8/8/8/7K/6R1 w - -", "depth": 3, "hm": 97},
+              {"fen": "k7/8/8/8/8/8/7K/6R1 w - -", "depth": 4, "hm": 96},
+              {"fen": "1r6/k7/8/8/8/8/8/7K b - -", "depth": 3, "hm": 97},
+              {"fen": "4k3/8/8/8/8/8/8/1R2K1R1 w - -", "depth": 3, "hm": 97},
+              {"fen": "1r2k1r1/8/8/8/8/8/8/4K3 b - -", "depth": 3, "hm": 98}]
     np_ = ctx.path("native_cases.json")
     with open(np_, "w") as f:
         json.dump(NATIVE, f)
